@@ -91,3 +91,75 @@ example : lgpl20 ∈ liveRangeIds ∧ lgpl30 ∈ liveRangeIds := by decide +kern
 end
 
 end Spdx.C11
+
+namespace Spdx.C11
+
+/-! ### the other three `+` cases in oracle form -/
+
+def verEqO : Option Ver → Option Ver → Bool
+  | some a, some b => verEq a b
+  | _, _ => false
+
+def eqByPos (a b : Bytes) : Bool :=
+  match pos a, pos b with
+  | some (i, j), some (k, l) => Nat.beq i k && Nat.beq j l
+  | _, _ => false
+def famByPos (a b : Bytes) : Bool :=
+  match pos a, pos b with
+  | some (i, _), some (k, _) => Nat.beq i k
+  | _, _ => false
+
+def casesAgree : Bool :=
+  liveRangeIds.all (fun a => liveRangeIds.all (fun b =>
+    (eqByPos a b == (optBytesEq (famKey a) (famKey b) && verEqO (verOf a) (verOf b))) &&
+    (famByPos a b == optBytesEq (famKey a) (famKey b))))
+
+/-- **table obligation**: same version group ⇔ same family and equal version; same table family ⇔ same family key —
+    for all ordered pairs of table ids, family and version read off the ids -/
+theorem cases_agree : casesAgree = true := by decide +kernel
+
+/-- neither side has `+`: two different table ids match iff the oracle reads the same family and the same version -/
+theorem noplus_match_oracle (a b : Bytes) (e : Option Bytes) (ha : a ∈ liveRangeIds) (hb : b ∈ liveRangeIds) (hne : a ≠ b)
+    (hfold : foldEq (render (.lic a false e)) (render (.lic b false e)) = false) :
+    matchLeaf (.lic a false e) (.lic b false e) = (optBytesEq (famKey a) (famKey b) && verEqO (verOf a) (verOf b)) := by
+  have hag := List.all_eq_true.mp (List.all_eq_true.mp cases_agree a ha) b hb
+  simp only [Bool.and_eq_true, beq_iff_eq] at hag
+  rw [← hag.1]
+  unfold eqByPos
+  cases hpa : pos a with
+  | none => exact C02.unranged_matches_only_itself a b false false e hpa hne hfold
+  | some p =>
+    obtain ⟨i, j⟩ := p
+    cases hpb : pos b with
+    | none =>
+      rw [matchLeaf_symm]
+      exact C02.unranged_matches_only_itself b a false false e hpb (Ne.symm hne) (by rw [foldEq_symm]; exact hfold)
+    | some q =>
+      obtain ⟨k, l⟩ := q
+      rw [C02.version_rule a b false false e i j k l hpa hpb hne hfold]
+      simp only
+      cases h1 : (i == k) <;> cases h2 : Nat.beq i k <;> cases h3 : (j == l) <;> cases h4 : Nat.beq j l <;> simp_all
+
+/-- both sides have `+`: two different table ids match iff the oracle reads the same family -/
+theorem bothplus_match_oracle (a b : Bytes) (e : Option Bytes) (ha : a ∈ liveRangeIds) (hb : b ∈ liveRangeIds) (hne : a ≠ b)
+    (hfold : foldEq (render (.lic a true e)) (render (.lic b true e)) = false) :
+    matchLeaf (.lic a true e) (.lic b true e) = optBytesEq (famKey a) (famKey b) := by
+  have hag := List.all_eq_true.mp (List.all_eq_true.mp cases_agree a ha) b hb
+  simp only [Bool.and_eq_true, beq_iff_eq] at hag
+  rw [← hag.2]
+  unfold famByPos
+  cases hpa : pos a with
+  | none => exact C02.unranged_matches_only_itself a b true true e hpa hne hfold
+  | some p =>
+    obtain ⟨i, j⟩ := p
+    cases hpb : pos b with
+    | none =>
+      rw [matchLeaf_symm]
+      exact C02.unranged_matches_only_itself b a true true e hpb (Ne.symm hne) (by rw [foldEq_symm]; exact hfold)
+    | some q =>
+      obtain ⟨k, l⟩ := q
+      rw [C02.version_rule a b true true e i j k l hpa hpb hne hfold]
+      simp only
+      cases h1 : (i == k) <;> cases h2 : Nat.beq i k <;> simp_all
+
+end Spdx.C11
